@@ -63,7 +63,7 @@ CHECKS = {
  "C17": ("exploration", "DESIGN.md §4 C17",
          "deterministic simulation: Lua scripts generated from the handler grammar run in the real Lua host behind the real SMTP server on the simulated network, 1-4 concurrent sessions, optional Go listeners before/after 'lua'; hook-semantics reference model + policy + naming models predict reply classes, deny code/text, and the stored mailboxes/sender/recipients/subject",
          "Seeded search over scripts (any subset of the five handlers; allow/deny/defer/nil/garbage/error/rewrite answers; conditions on the session) x dialogues x policy configurations x listener order x schedules.",
-         "gopher-lua is not instrumented: Lua code runs without scheduling points; sessions interleave at pool/broker locks and connection operations. The data-race clause is not decided (see DESIGN §2.7)."),
+         "gopher-lua is not instrumented: Lua code runs without scheduling points; sessions interleave at pool/broker locks and connection operations. That two sessions never use the same Lua state (or other Lua-host data) unordered is decided by the race-mode companion C17R: the same scripts and sessions in a -race binary, simulator hand-off hidden from ThreadSanitizer, Inbucket's synchronisation published; a report counts when both access stacks pass through pkg/extension/luahost (DESIGN §11.7)."),
  "C19": ("exploration", "DESIGN.md §4 C19",
          "deterministic simulation: the real server.FullAssembly/Services.Start (hub, web, SMTP, POP3, retention) on the simulated network, disk and clock; sessions parked in every protocol state or connecting at the last moment; a driver mirrors main.go's cancel/Drain/Drain/Join; seeded ordering of cancel, client continuation, late dials and scheduler choices",
          "Seeded search over session states at shutdown x number of sessions x cancel instants (including inside the first retention scan) x schedules. Oracle: nothing new is greeted, every session the server had accepted before the request completes normally with its message stored / deletion applied, each Drain returns only after the server side of those sessions is closed and does return, Join within one simulated second, no task panics.",
